@@ -205,7 +205,15 @@ func ruleGuardedBy(c *Ctx, prefix string) {
 		e    *guardEntry
 	}
 	counts := map[string]int{}
+	isRoot := map[*ssa.Function]bool{}
+	for _, r := range roots {
+		isRoot[r] = true
+	}
 	for _, fn := range all {
+		// helpers that are explored inline from their callers are covered there, with the callers' locks
+		if !isRoot[fn] && inlinedEverywhere(c, fn) {
+			continue
+		}
 		c.R.Functions[shortFn(fn)] = true
 		ex := NewExplorer(c.P, c.Pure, fn)
 		if scope[fn] {
@@ -701,4 +709,24 @@ func valueOrigins(v ssa.Value) []ssa.Value {
 	}
 	walk(v, 0)
 	return out
+}
+
+// inlinedEverywhere: every first-party caller would explore fn inline.
+func inlinedEverywhere(c *Ctx, fn *ssa.Function) bool {
+	sites := c.P.CallersOf(fn)
+	if len(sites) == 0 {
+		return false
+	}
+	for _, s := range sites {
+		if s.Common().StaticCallee() != fn || !defaultInline(s.Parent(), fn) {
+			return false
+		}
+		if _, isGo := s.(*ssa.Go); isGo {
+			return false
+		}
+		if _, isDefer := s.(*ssa.Defer); isDefer {
+			return false
+		}
+	}
+	return true
 }
